@@ -24,7 +24,9 @@ RULE = ("name and base built from 0-3 segments out of {a, b, x.y, .h, .., ., '',
         "reuse, clean) / close(clear) calls on one Filer with a sibling Filer's file and unrelated files in the shared "
         "directories, and direct remake(name, base, temp, clean, filed, extensioned, fext) calls whose base/name differ "
         "from the constructor's (climbing, absolute, empty); 40 % of the histories run inside `with openFiler(...)` and "
-        "leave the block normally or by an exception (the exit is one more observed call), snapshotting after every call (the walk starts 6 directories "
+        "leave the block normally or by an exception (the exit is one more observed call); histories also wrap the Filer "
+        "in a FilerDoer run by a real Doist (injected temp None/True/False, Filer opened or closed beforehand, normal end "
+        "or forced exit at the time limit; enter and exit observed separately); .temp is observed after every call, snapshotting after every call (the walk starts 6 directories "
         "above the sandbox root, so escapes show up as ../ paths); thorough enumerates all 16 flag sets x all name/base pairs of <= 2 segments; non-trivial "
         "= a dotted segment ('.', '..' or '...'), or temp with filed, extensioned or clean, or a history of >= 2 calls or "
         "with a clearing temp flip")
@@ -82,7 +84,7 @@ def directed():
         out.append(dict(c, pre=[["head/hio", True]]))
         out.append(dict(c, pre=[["head/hio", True], [expected_rel(c, alt=True), bool(filed)]]))
     out.append(dict(mk("x"), pre=[["head/hio", True], ["alt/.hio", True]]))
-    return out + directed_histories() + directed_remakes() + directed_ctx()
+    return out + directed_histories() + directed_remakes() + directed_ctx() + directed_doers()
 
 
 def rand_path(rng):
@@ -202,12 +204,29 @@ def directed_ctx():
     return out
 
 
+def directed_doers():
+    R, C = "reopen", "close"
+    out = []
+    for filed, ext in [(True, False), (False, False), (False, True)]:
+        for temp in (False, True):
+            c = mk("x", "b", temp=temp, filed=filed, ext=ext)
+            for inj in (None, True, False):
+                for forced in (False, True):
+                    out.append(hist(c, ("doer", inj, forced)))                        # opened beforehand
+                    out.append(hist(c, (C, False), ("doer", inj, forced)))            # closed beforehand
+            out.append(hist(c, ("doer", not temp, False), ("doer", None, True), (C, True)))
+            out.append(hist(c, (C, True), ("doer", not temp, False), (R, None, None, False, True, False), ("doer", temp, True)))
+    return out
+
+
 def random_history(rng):
     c = mk(rng.choice(["x", "x", "x.y", "a/x", "x", ".h"]), rng.choice(["b", "b", "", "b/c"]),
            rng.random() < 0.4, rng.random() < 0.25, rng.random() < 0.5, rng.random() < 0.35, "text")
     hops = []
     for _ in range(rng.choice([1, 2, 2, 3, 4, 5])):
-        if rng.random() < 0.3:
+        if rng.random() < 0.2:
+            hops.append(["doer", rng.choice([None, True, False]), rng.random() < 0.5])
+        elif rng.random() < 0.3:
             hops.append(rand_remake(rng))
         elif rng.random() < 0.7:
             hops.append(["reopen", rng.choice([None, None, True, False]), rng.choice([None, None, None, "db"]),
@@ -301,10 +320,57 @@ def run_impl(case):
         kw = dict(name=case["name"], base=case["base"], temp=case["temp"], headDirPath=os.path.join(root, "head"),
                   clean=case["clean"], filed=case["filed"], extensioned=case["ext"], fext=case["fext"], reopen=True)
 
+        def observe(filer, hop, r):
+            obs["hops_run"].append(hop)
+            obs["hops"].append({"res": r, "path": _relpath(filer.path, root, tmap), "temp": bool(filer.temp),
+                                "snap": _snapshot(root, tmap)})
+
+        def run_doer(filer, inj, forced):
+            """a FilerDoer around the filer, run by a real Doist to a normal end or a forced exit (time limit);
+            enter and exit are observed separately; returns True when either raised"""
+            from hio.base import doing
+            from hio.base.filing import FilerDoer
+            bad = []
+
+            class ObservedDoer(FilerDoer):
+                def enter(self, *, temp=None):
+                    try:
+                        # temp is what the Doist / Doer.do machinery hands down (an injected False arrives as None)
+                        super().enter(temp=temp)
+                        observe(self.filer, ["doerenter", temp], ["ok", None])
+                    except Exception as ex:
+                        bad.append(1)
+                        observe(self.filer, ["doerenter", temp], ["exc", exn_kind(ex)])
+                        raise
+
+                def recur(self, tyme):
+                    return not forced
+
+                def exit(self):
+                    try:
+                        super().exit()
+                        observe(self.filer, ["doerexit"], ["ok", None])
+                    except Exception as ex:
+                        bad.append(1)
+                        observe(self.filer, ["doerexit"], ["exc", exn_kind(ex)])
+                        raise
+
+            doist = doing.Doist(real=False, tock=0.125, limit=0.5 if forced else None)
+            try:
+                doist.do(doers=[ObservedDoer(filer=filer)], temp=inj)
+            except Exception:
+                if not bad:
+                    raise
+            return bool(bad)
+
         def run_hops(filer):
             """the calls of the history; returns True when a call other than remake() raised"""
             obs["hops"], obs["hops_run"] = [], []
             for hop in case.get("hops") or []:
+                if hop[0] == "doer":
+                    if run_doer(filer, hop[1], hop[2]):
+                        return True
+                    continue
                 try:
                     if hop[0] == "close":
                         filer.close(clear=hop[1])
@@ -320,8 +386,7 @@ def run_impl(case):
                     r = ["ok", None]
                 except Exception as ex:
                     r = ["exc", exn_kind(ex)]
-                obs["hops_run"].append(hop)
-                obs["hops"].append({"res": r, "path": _relpath(filer.path, root, tmap), "snap": _snapshot(root, tmap)})
+                observe(filer, hop, r)
                 if r[0] != "ok" and hop[0] != "remake":
                     return True    # the history stops at the first exception (a rejected remake() call changes nothing)
             return False
@@ -350,8 +415,7 @@ def run_impl(case):
                 else:
                     exit_res = ["exc", exn_kind(ex)]
             if filer is not None:
-                obs["hops_run"].append(["exit", ctx["clear"]])
-                obs["hops"].append({"res": exit_res, "path": _relpath(filer.path, root, tmap), "snap": _snapshot(root, tmap)})
+                observe(filer, ["exit", ctx["clear"]], exit_res)
             return obs
         try:
             filer = SandboxFiler(**kw)
@@ -443,17 +507,23 @@ def _oracle_history(case, obs, P):
     when that path is a temp one) or, for reopen(clean=True), inside the clean tail; creations only inside a head or
     a temp directory; after a clear the previous path (or its whole mkdtemp directory) is gone"""
     before = set(_paths(obs["mid"]))
+    opened, temp_now = True, case["temp"]
     for n, (hop, o) in enumerate(zip(obs["hops_run"], obs["hops"])):
         after = set(_paths(o["snap"]))
         if o["res"][0] != "ok" and hop[0] != "remake":
             return None
         clear = hop[1] if hop[0] == "close" else (hop[3] if hop[0] == "reopen" else False)
-        if hop[0] == "exit":
+        what = f"hop {n} {hop[0]}({', '.join(map(str, hop[1:]))})"
+        if hop[0] == "doerenter" and opened:
+            if before != after or o["path"] != P or o["temp"] != temp_now:
+                return (f"{what}: FilerDoer.enter on an opened Filer changed it: path {'/'.join(P or [])} -> "
+                        f"{'/'.join(o['path'] or [])}, temp {temp_now} -> {o['temp']}, tree changed: {before != after}")
+        if hop[0] in ("exit", "doerexit"):
             # leaving "with openFiler": a temp resource (by where the Filer's path lies NOW) goes, a persistent one
             # stays unless clear was asked for
-            clear = bool(_temp_head(P)) or hop[1]
+            clear = bool(_temp_head(P)) or (hop[0] == "exit" and hop[1])
             if not clear and before != after:
-                return (f"leaving the openFiler block of a persistent Filer without clear changed the tree: deleted "
+                return (f"{hop[0]} of a persistent Filer without clear changed the tree: deleted "
                         f"{sorted('/'.join(p) for p in before - after)[:3]}, created {sorted('/'.join(p) for p in after - before)[:3]}")
         clean = (hop[0] == "reopen" and hop[5]) or (hop[0] == "remake" and hop[4])
         what = f"hop {n} {hop[0]}({', '.join(map(str, hop[1:]))})"
@@ -465,7 +535,7 @@ def _oracle_history(case, obs, P):
                 return (f"{what} deleted {'/'.join(p)}, which is not at or below the Filer's own previous path "
                         f"{'/'.join(P or [])}")
         for p in map(list, sorted(after - before)):
-            if hop[0] in ("close", "exit"):
+            if hop[0] in ("close", "exit", "doerexit"):
                 return f"{what} created {'/'.join(p)}"
             if not (_under(H, p) or _under(A, p) or _under(TMP, p)):
                 return f"{what} created {'/'.join(p)} outside every head directory"
@@ -479,7 +549,11 @@ def _oracle_history(case, obs, P):
                     return f"{what} cleared a temp Filer but left {'/'.join(left[0])} of its temp head behind"
             elif tuple(P) in after and not (hop[0] == "reopen" and newP == P):
                 return f"{what} left the previous path {'/'.join(P)} in place"
-        P, before = newP, after
+        if hop[0] in ("close", "exit", "doerexit"):
+            opened = False
+        elif hop[0] in ("reopen", "doerenter"):
+            opened = True
+        P, before, temp_now = newP, after, o["temp"]
     return None
 
 
@@ -541,26 +615,31 @@ def to_coq(case, obs):
     hops, hobs = [], []
     for hop, o in zip(obs.get("hops_run") or [], obs.get("hops") or []):
         if hop[0] == "close":
-            hops.append(f"(Path.HClose {coq_bool(hop[1])})")
+            hops.append(f"(Path.H (Path.HClose {coq_bool(hop[1])}))")
         elif hop[0] == "exit":
-            hops.append(f"(Path.HExit {coq_bool(hop[1])})")
+            hops.append(f"(Path.H (Path.HExit {coq_bool(hop[1])}))")
+        elif hop[0] == "doerenter":
+            hops.append("(Path.HDoerEnter %s)" % ("None" if hop[1] is None else f"(Some {coq_bool(hop[1])})"))
+        elif hop[0] == "doerexit":
+            hops.append("Path.HDoerExit")
         elif hop[0] == "remake":
             _, nm, bs, temp, clean, filed, ext, fext = hop
-            hops.append("(Path.HRemake %s %s %s %s %s %s %s)" % (
+            hops.append("(Path.H (Path.HRemake %s %s %s %s %s %s %s))" % (
                 _path(nm.split("/")), _path(bs.split("/")), coq_bool(temp), coq_bool(clean), coq_bool(filed),
                 coq_bool(ext), _seg(fext)))
         else:
             _, temp, fext, clear, reuse, clean = hop
-            hops.append("(Path.HReopen %s %s %s %s %s)" % (
+            hops.append("(Path.H (Path.HReopen %s %s %s %s %s))" % (
                 "None" if temp is None else f"(Some {coq_bool(temp)})",
                 "None" if fext is None else f"(Some {_seg(fext)})", coq_bool(clear), coq_bool(reuse), coq_bool(clean)))
-        hobs.append("(%s, %s, %s)" % (coq_res(o["res"], lambda _: "tt"),
-                                      "None" if o["path"] is None else f"(Some {_path(o['path'])})", _fs(o["snap"])))
+        hobs.append("(%s, %s, %s, %s)" % (coq_res(o["res"], lambda _: "tt"),
+                                          "None" if o["path"] is None else f"(Some {_path(o['path'])})",
+                                          coq_bool(o["temp"]), _fs(o["snap"])))
     return ("{| Path.k_cfg := %s; Path.k_pre := %s; Path.k_open := %s; Path.k_mid := %s; Path.k_owner := %s; "
             "Path.k_clear := %s; Path.k_post := %s; Path.k_hops := %s; Path.k_hobs := %s |}" % (
                 cfg, _fs(obs["pre"]), coq_res(obs["open"], _path), _fs(obs["mid"]), coq_nat(case["owner"]),
                 coq_res(obs["clear"], lambda _: "tt") if ok else "(Ok tt)", _fs(obs["post"]) if ok else _fs([]),
-                coq_list(hops, "Path.hop"), coq_list(hobs, "res unit * option Path.path * Path.fsys")))
+                coq_list(hops, "Path.hop2"), coq_list(hobs, "res unit * option Path.path * bool * Path.fsys")))
 
 
 def distribution(cases, obs):
